@@ -276,6 +276,16 @@ func seeds() []seed {
 		r3.Entries = append(r3.Entries, gen.Entry{Dir: gen.DirExif, Tag: 0x927c, Name: "MakerNote", V: gen.Val{Type: gen.TUndefined, Ints: mn}})
 		add("tiff-nikon-makernote-II", "tiff", gen.EncodeTIFF(r3, can, II, gen.AllDirs))
 	}
+	{ // SubIFDs: a LONG array of directory offsets (here: two empty directories in the trailing zero bytes)
+		r4 := gen.MinimalRecord()
+		mk := func(a, b uint32) *gen.Doc {
+			r := r4
+			r.Entries = append(append([]gen.Entry{}, r4.Entries...), gen.Entry{Dir: gen.DirIFD0, Tag: 0x014a, Name: "SubIFDs", V: gen.Val{Type: gen.TLong, Ints: []uint32{a, b}}})
+			return gen.EncodeTIFF(r, can, II, gen.AllDirs)
+		}
+		n := uint32(len(mk(0, 0).B))
+		add("tiff-subifds-II", "tiff", mk(n-48, n-24))
+	}
 	for _, n := range []int{83, 84, 100, 128} { // pending out-of-line tags at and beyond the 84-slot tag buffer
 		add(fmt.Sprintf("tiff-%d-pending-tags", n), "tiff", manyPendingTags(n))
 	}
